@@ -7,6 +7,8 @@
 //                              k = 3: <100,100> layout with the extra byte between header and body
 //                                     (copy of nrf_details::encrypted_pdu_layout), max rx/tx 29
 //                              k = 4: <255,255> encrypted layout, max rx/tx size 60
+//                              k = 5: <520,520> default, 6: <300,780> encrypted layout, 7: <254,254> default (one PDU):
+//                                     max rx/tx size 251 = payloads up to 249 bytes (data length extension)
 //   tx <llid> <bodyhex>        allocate_transmit_buffer( memory size ); "full" if that fails, else
 //                              fill header (LLID, length) + body, commit_transmit_buffer -> "ok"
 //   free                       next_received(): "none" or the PDU (hex: 2 header bytes + body),
@@ -354,6 +356,11 @@ static std::unique_ptr< buf_if > make( unsigned long long k )
     case 2: return std::unique_ptr< buf_if >( new wrapper< 100, 100, ll::default_pdu_layout >( 50, 50 ) );
     case 3: return std::unique_ptr< buf_if >( new wrapper< 100, 100, gap_layout >( 29, 29 ) );
     case 4: return std::unique_ptr< buf_if >( new wrapper< 255, 255, gap_layout >( 60, 60 ) );
+    // data length extension: max_rx_size / max_tx_size at the buffer's maximum (max_buffer_size = 251 incl. the
+    // 2 byte header, i.e. payloads of up to 249 bytes: every value of the 8 bit length field the buffer admits)
+    case 5: return std::unique_ptr< buf_if >( new wrapper< 520, 520, ll::default_pdu_layout >( 251, 251 ) );
+    case 6: return std::unique_ptr< buf_if >( new wrapper< 300, 780, gap_layout >( 251, 251 ) );
+    case 7: return std::unique_ptr< buf_if >( new wrapper< 254, 254, ll::default_pdu_layout >( 251, 251 ) );
     }
     return std::unique_ptr< buf_if >();
 }
